@@ -271,7 +271,8 @@ def find_relative_paths(
                 resolve(node.parent, path_idx + 1)
             elif path_component == "*":
                 for child in node.children:
-                    resolve(child, path_idx + 1)
+                    if child:
+                        resolve(child, path_idx + 1)
             else:
                 node = find_child_by_name(node, path_component)
                 if not node:
